@@ -117,21 +117,25 @@ void constructCommon(ModelSignature model,
     std::string filename_old = checkpoint_filename + "_old";
 
     if (!filename.empty()){ // recover from an existing checkpoint
-        std::ifstream infile(filename, std::ios::binary);
-        try{ // attempt to recover from filename
-            if (!infile.good()) throw std::runtime_error("missing main checkpoint");
+        // a checkpoint file is used only if it can be read completely, a damaged file must not touch the grid
+        auto is_complete = [&](std::string const &name)->bool{
+            std::ifstream testfile(name, std::ios::binary);
+            if (!testfile.good()) return false;
+            try{
+                TasmanianSparseGrid test_grid;
+                CompleteStorage test_complete(num_dimensions);
+                test_grid.read(testfile, mode_binary);
+                test_complete.read(testfile);
+            }catch(std::runtime_error &){
+                return false;
+            }
+            return true;
+        };
+        std::string const recover_from = (is_complete(filename)) ? filename : ((is_complete(filename_old)) ? filename_old : std::string());
+        if (!recover_from.empty()){
+            std::ifstream infile(recover_from, std::ios::binary);
             grid.read(infile, mode_binary);
             complete.read(infile);
-        }catch(std::runtime_error &){
-            // main file is missing or is corrupt, try the older version
-            std::ifstream oldfile(filename_old, std::ios::binary);
-            try{
-                if (!oldfile.good()) throw std::runtime_error("missing main checkpoint");
-                grid.read(oldfile, mode_binary);
-                complete.read(oldfile);
-            }catch(std::runtime_error &){
-                // nothing could be recovered, start over from the current grid
-            }
         }
     }
 
